@@ -29,6 +29,8 @@ func c06(c *Ctx) {
 	c06invalidate(c)
 	c06index(c)
 	c06sharedBarrier(c)
+	c06takeWithExpire(c)
+	c06barrierPanic(c)
 }
 
 // isCeilSeconds: s is int(math.Ceil(X.Seconds())); returns X.
@@ -1071,4 +1073,72 @@ func c06sharedBarrier(c *Ctx) {
 	if sites < 4 {
 		c.R.Undecided(rule, "cache constructor call sites", "sqlc and monc constructors found", fmt.Sprintf("%d sites", sites))
 	}
+}
+
+// c06takeWithExpire: the expiry announced to the query is the expiry the value is cached with.
+func c06takeWithExpire(c *Ctx) {
+	rule := "C06.R6"
+	f := c.fn(rule, cachePkg, "(cacheNode).TakeWithExpireCtx")
+	if f == nil {
+		return
+	}
+	ps := c.paths(rule, f, px.Config{})
+	c.forall(rule, cachePkg+".(cacheNode).TakeWithExpireCtx", "one jittered expiry is drawn from the configured expiry and shared by the query callback and the cache fill", f, ps, func(p *px.Path) (bool, string) {
+		ar := p.All(calleeIs(cachePkg + ".(cacheNode).aroundDuration"))
+		if len(ar) != 1 || !fieldLoadDeep(ar[0].Call.Args[1], "expiry", nil) {
+			return false, "the expiry is not drawn exactly once from the configured expiry"
+		}
+		return true, ""
+	})
+	if len(f.AnonFuncs) != 2 {
+		c.R.Undecided(rule, cachePkg+".(cacheNode).TakeWithExpireCtx$closures", "anchor resolves", fmt.Sprintf("expected the query and the cache-fill closures, found %d", len(f.AnonFuncs)))
+		return
+	}
+	isExpire := func(s *px.Sym) bool {
+		s = s.Strip(false)
+		return (s.Kind == px.KLoad && s.X != nil && s.X.Kind == px.KFreeVar && s.X.V.Name() == "expire") || (s.Kind == px.KFreeVar && s.V.Name() == "expire")
+	}
+	for _, cl := range f.AnonFuncs {
+		cps := c.paths(rule, cl, px.Config{})
+		c.forall(rule, cachePkg+".(cacheNode).TakeWithExpireCtx$"+cl.Name(), "the query callback is told, and the value is cached with, the very same expiry (an index entry written by the callback must not outlive the row it points to: the two TTLs are derived from one draw)", cl, cps, func(p *px.Path) (bool, string) {
+			for _, e := range p.All(px.KindIs(px.EvCall)) {
+				if e.Inlined {
+					continue
+				}
+				if e.Call.IsDyn() {
+					if len(e.Call.Args) != 2 || !isExpire(e.Call.Args[1]) {
+						return false, "the query callback is not given the shared expiry"
+					}
+					return true, ""
+				}
+				if o := e.Call.Obj(); o != nil && strings.HasPrefix(o.Name(), "Set") {
+					if o.Name() != "SetWithExpireCtx" || !isExpire(e.Call.Args[len(e.Call.Args)-1]) {
+						return false, "the value is cached through " + o.Name() + " without the expiry that was announced to the query callback: the row's TTL is an independent draw, so an index entry can outlive the row it points to"
+					}
+					return true, ""
+				}
+			}
+			return false, "neither the query callback nor a cache fill"
+		})
+	}
+}
+
+// c06barrierPanic: the shared barrier releases its key when the query panics (failure containment).
+func c06barrierPanic(c *Ctx) {
+	rule := "C06.R7"
+	f := c.fn(rule, "core/syncx", "(*flightGroup).makeCall")
+	if f == nil {
+		return
+	}
+	fnP := paramOfType(f, "func() (any, error)")
+	ps := c.paths(rule, f, px.Config{MayPanic: userPanics})
+	c.forall(rule, "core/syncx.(*flightGroup).makeCall", "the barrier forgets the key and releases its waiters on every exit of the load, including a panic (otherwise one panicking query blocks every later reader of that key forever)", f, ps, func(p *px.Path) (bool, string) {
+		del := p.Count(func(e *px.Event) bool { return e.Kind == px.EvCall && e.Call.Builtin == "delete" })
+		done := p.Count(calleeIs("sync.(*WaitGroup).Done"))
+		if del != 1 || done != 1 {
+			return false, fmt.Sprintf("on exit %q: delete ×%d, Done ×%d", p.Exit, del, done)
+		}
+		_ = fnP
+		return true, ""
+	})
 }
